@@ -547,11 +547,14 @@ def run_ungapped(case):
 
     want = mat[c1[seed[0]]][c2[seed[1]]]
     up = down = 0
+    b1 = b2 = False
     if direction in ("both", "upstream"):
-        up, _ = R.xdrop_ungapped(c1[: seed[0]][::-1], c2[: seed[1]][::-1], mat, T)
+        up, b1 = R.xdrop_ungapped(c1[: seed[0]][::-1], c2[: seed[1]][::-1], mat, T)
     if direction in ("both", "downstream"):
-        down, _ = R.xdrop_ungapped(c1[seed[0] + 1 :], c2[seed[1] + 1 :], mat, T)
+        down, b2 = R.xdrop_ungapped(c1[seed[0] + 1 :], c2[seed[1] + 1 :], mat, T)
     want += up + down
+    if b1 or b2:
+        o.label("drop_exactly_at_threshold")
 
     trace = trace_of(ali)
     score = int(ali.score)
@@ -652,7 +655,7 @@ SUBS = [
         "banded",
         st_banded,
         run_banded,
-        quick=4800,
+        quick=4000,
         thorough=150000,
         rule="band excludes every optimal alignment of the unrestricted problem (band-restricted optimum < optimum), both sequences >= 2",
         clauses="valid traces; pairs inside band; recomputed (completed) score == reported; <= optimum; == optimum when band covers the table; == band-restricted optimum; distinct; <= max_number",
@@ -661,7 +664,7 @@ SUBS = [
         "seeded",
         st_seeded,
         run_seeded,
-        quick=4000,
+        quick=3200,
         thorough=120000,
         rule="threshold binds (result < best alignment through the seed) or the seed is off every optimal local alignment, both sequences >= 2",
         clauses="contains seed; direction; recomputed == reported == score_only; <= best through seed <= local optimum; == best through seed when the threshold cannot bind",
@@ -670,7 +673,7 @@ SUBS = [
         "ungapped",
         st_ungapped,
         run_ungapped,
-        quick=4000,
+        quick=2400,
         thorough=120000,
         rule="threshold binds or the seed diagonal segment is not the optimal local alignment, both sequences >= 2",
         clauses="diagonal range through the seed; direction; recomputed == reported == score_only == exact X-drop reference; <= optimum",
